@@ -463,6 +463,165 @@ def wrap_elem(uq, i):
     return wrap(uq["values"](i))
 
 
+# ----------------------------------------------------------------------------- make_channel_index: neighbours within the radius, ascending, padded
+def replay_channel_index(vals, oid):
+    """brute-force reference on lattice geometries where several distances equal the radius exactly (Pythagorean spacings)"""
+    rng = np.random.default_rng(7)
+    bad = []
+    for t in range(40):
+        nc = int(rng.integers(1, 40))
+        geom = np.c_[rng.integers(0, 4, nc) * 3.0, rng.integers(0, 12, nc) * 4.0]          # 3-4-5 lattice: distance 5.0, 10.0, ... occur exactly
+        radius = float(rng.choice([0.0, 3.0, 4.0, 5.0, 10.0, 12.5]))
+        got = U.make_channel_index(geom, radius=radius)
+        d2 = ((geom[:, None, :] - geom[None, :, :]) ** 2).sum(-1)
+        rows = [np.flatnonzero(d2[c] <= radius ** 2) for c in range(nc)]
+        width = max(len(r_) for r_ in rows)
+        want = np.full((nc, width), nc, dtype=int)
+        for c, r_ in enumerate(rows):
+            want[c, :len(r_)] = r_
+        if got.shape != want.shape or not np.array_equal(got, want):
+            bad.append({"nc": nc, "radius": radius, "shape": got.shape, "expected_shape": want.shape})
+    return {"failed": bool(bad), "examples": bad[:3]}
+
+
+@harness(PROPERTY, "make_channel_index", functions=["ibldsp.utils:make_channel_index"], replay=replay_channel_index,
+         clause="the channels lying within the neighbourhood radius of a channel, in ascending order and padded with the index of the NaN row")
+def h_channel_index(H):
+    import ast
+    import scipy.spatial.distance as SD
+    from pyvc import interp as I
+    S = H.session("channel_index")
+    FN = U.make_channel_index
+
+    def body(it):
+        nc = z3.Int("nc")
+        radius = z3.Real("radius")
+        it.ctx.assume(z3.And(nc >= 1, radius >= 0))
+        geom = A.fresh_array("geom", "float64", (nc, 2))
+        D = A.fresh_array("pairwise_distance", "float64", (nc, nc))
+        i, j = z3.Ints("i j")
+        # A-SCIPY squareform(pdist(geom)): a symmetric matrix of non negative distances with a zero diagonal (values opaque)
+        it.ctx.assume(z3.ForAll([i, j], z3.Implies(z3.And(i >= 0, i < nc, j >= 0, j < nc), z3.And(D.uf(i, j) == D.uf(j, i), D.uf(i, j) >= 0)), patterns=[D.uf(i, j)]))
+        it.ctx.assume(z3.ForAll([i], z3.Implies(z3.And(i >= 0, i < nc), D.uf(i, i) == 0), patterns=[D.uf(i, i)]))
+        calls = []
+
+        def pdist_summary(it_, a, k):
+            calls.append(a[0])
+            return "PDIST"
+        it.session.contracts[SD.pdist] = pdist_summary
+        it.session.contracts[SD.squareform] = lambda it_, a, k: D
+        node, filename = I.SOURCES.funcdef(FN)
+        it.session.note_function(FN)
+        loops = [n_ for n_ in node.body if isinstance(n_, ast.For)]
+        if len(loops) != 1:
+            raise I.Unsupported("cannot identify the per-channel loop of make_channel_index()")
+        loop = loops[0]
+        before = node.body[:node.body.index(loop)]
+        env = I.Env(None, FN.__globals__, qualname="make_channel_index", filename=filename)
+        env.funcnode = node
+        env.vars.update(dict(geom=geom, radius=SV(radius), pad_val=None))
+        it.ctx.func = env.qualname
+        it.exec_block(before, env)
+        it.ctx.oblige("neighbours.distances_of_the_geometry", z3.BoolVal(len(calls) == 1 and calls[0] is geom), "post")
+        tab = _chan_var(env)
+        width = A.T(tab.shape[1])
+        r, c2 = z3.Ints("r c2")
+        it.ctx.oblige("neighbours.table_shape_and_padding", z3.And(z3.BoolVal(tab.ndim == 2 and tab.dtype.kind == "i"), A.T(tab.shape[0]) == nc,
+                      A.forall([r, c2], lambda: z3.Implies(z3.And(r >= 0, r < nc, c2 >= 0, c2 < width), tab.read((r, c2)) == nc))), "post",
+                      "before the loop every slot holds the pad value nc (the index of the NaN row)")
+        # the column counts the width is the maximum of (np.sum(neighbors, 0)) and the row counts (flatnonzero of a row) count the same thing:
+        sums = [q for q in it.ctx.reduce_log if q["name"] == "sum"]
+        if len(sums) != 1:
+            raise I.Unsupported("cannot identify the neighbour counts (np.sum over one axis) in make_channel_index()")
+        sm = sums[0]
+        c = z3.Int("c_channel")
+        it.ctx.assume(z3.And(c >= 0, c < nc))
+        t0 = tab.snapshot()
+        nw0 = len([q for q in it.ctx.where_log if q["ndim"] == 1])
+        # one symbolic iteration; rows of other channels are arbitrary at this point (havoc) except for their shape
+        it.assign(loop.target, SV(c), env)
+        near = lambda a_, b_: D.read((a_, b_)) <= radius       # noqa
+        # lemma (counting is extensional): the mask of row c and the mask summed for column c are the same set (symmetry), so their counts agree.
+        other = 1 - sm["axis"]
+        col_mask = (lambda q: sm["input"]((q, c))) if sm["axis"] == 0 else (lambda q: sm["input"]((c, q)))
+        it.ctx.oblige("neighbours.lemma.column_mask_is_row_mask", A.forall([i], lambda: z3.Implies(z3.And(i >= 0, i < nc), col_mask(i) == near(c, i))), "lemma",
+                      "the boolean column summed for channel c marks exactly the channels within the radius of c (distance symmetric)")
+        # the first statement of the body (the selection of this row's neighbours), to get at its where() specification;
+        # the assignment into the table is the business of the second session, which may use the counting lemma
+        it.exec_stmt(loop.body[0], env)
+        w = [q for q in it.ctx.where_log if q["ndim"] == 1][nw0:]
+        if len(w) != 1:
+            raise I.Unsupported("cannot identify the selection of one channel's neighbours")
+        w = w[0]
+        it.ctx.oblige("neighbours.row_mask", A.forall([i], lambda: z3.Implies(z3.And(i >= 0, i < nc), w["mask"]((i,)) == near(c, i))), "post",
+                      "the neighbours of channel c are the channels within the radius (itself included)")
+    S.explore(body)
+
+    # the row itself (second session: the counting lemma above is used as a hypothesis: A-NP-SPEC sum(mask) == len(flatnonzero(mask)))
+    S2 = H.session("channel_index.row")
+
+    def row(it):
+        nc = z3.Int("nc")
+        radius = z3.Real("radius")
+        it.ctx.assume(z3.And(nc >= 1, radius >= 0))
+        geom = A.fresh_array("geom", "float64", (nc, 2))
+        D = A.fresh_array("pairwise_distance", "float64", (nc, nc))
+        i, j = z3.Ints("i j")
+        it.ctx.assume(z3.ForAll([i, j], z3.Implies(z3.And(i >= 0, i < nc, j >= 0, j < nc), z3.And(D.uf(i, j) == D.uf(j, i), D.uf(i, j) >= 0)), patterns=[D.uf(i, j)]))
+        it.ctx.assume(z3.ForAll([i], z3.Implies(z3.And(i >= 0, i < nc), D.uf(i, i) == 0), patterns=[D.uf(i, i)]))
+        it.session.contracts[SD.pdist] = lambda it_, a, k: "PDIST"
+        it.session.contracts[SD.squareform] = lambda it_, a, k: D
+        node, filename = I.SOURCES.funcdef(FN)
+        loop = [n_ for n_ in node.body if isinstance(n_, ast.For)]
+        if len(loop) != 1:
+            raise I.Unsupported("cannot identify the per-channel loop of make_channel_index()")
+        loop = loop[0]
+        env = I.Env(None, FN.__globals__, qualname="make_channel_index", filename=filename)
+        env.funcnode = node
+        env.vars.update(dict(geom=geom, radius=SV(radius), pad_val=None))
+        it.ctx.func = env.qualname
+        it.exec_block(node.body[:node.body.index(loop)], env)
+        tab = _chan_var(env)
+        width = A.T(tab.shape[1])
+        sums = [q for q in it.ctx.reduce_log if q["name"] == "sum"]
+        if len(sums) != 1:
+            raise I.Unsupported("cannot identify the neighbour counts in make_channel_index()")
+        sm = sums[0]
+        c = z3.Int("c_channel")
+        it.ctx.assume(z3.And(c >= 0, c < nc))
+        t0 = tab.snapshot()
+        it.assign(loop.target, SV(c), env)
+        # A-NP-SPEC: np.sum of a boolean vector == number of True entries == len(flatnonzero(it)); the two vectors are equal (lemma of the first session)
+        sel = loop.body[0]
+        it.exec_stmt(sel, env)
+        w = [q for q in it.ctx.where_log if q["ndim"] == 1]
+        if not w:
+            raise I.Unsupported("cannot identify the selection of one channel's neighbours")
+        w = w[-1]
+        it.ctx.assume(sm["out"](c) == w["count"])
+        it.exec_block(list(loop.body[1:]), env)
+        k, k2, r, c2 = z3.Ints("k k2 r c2")
+        cnt = w["count"]
+        near = lambda a_, b_: D.read((a_, b_)) <= radius       # noqa
+        it.ctx.oblige("neighbours.row.ascending_members", z3.And(cnt <= width,
+                      A.forall([k], lambda: z3.Implies(z3.And(k >= 0, k < cnt), z3.And(tab.read((c, k)) >= 0, tab.read((c, k)) < nc, near(c, tab.read((c, k)))))),
+                      A.forall([k, k2], lambda: z3.Implies(z3.And(k >= 0, k < k2, k2 < cnt), tab.read((c, k)) < tab.read((c, k2))))), "post",
+                      "row c lists channels within the radius of c, in strictly ascending order", assume=False)
+        it.ctx.oblige("neighbours.row.complete", A.forall([i], lambda: z3.Implies(z3.And(i >= 0, i < nc, near(c, i)), z3.And(w["rank"](i) >= 0, w["rank"](i) < cnt, tab.read((c, w["rank"](i))) == i))), "post",
+                      "every channel within the radius is listed (witness: its rank among them)", assume=False)
+        it.ctx.oblige("neighbours.row.padding", A.forall([k], lambda: z3.Implies(z3.And(k >= cnt, k < width), tab.read((c, k)) == nc)), "post", "the rest of the row holds the pad value nc", assume=False)
+        it.ctx.oblige("neighbours.row.frame", A.forall([r, c2], lambda: z3.Implies(z3.And(r >= 0, r < nc, r != c, c2 >= 0, c2 < width), tab.read((r, c2)) == t0((r, c2)))), "post", "only row c is written", assume=False)
+    S2.explore(row)
+
+
+def _chan_var(env):
+    from pyvc import interp as I
+    v = env.vars.get("channel_idx")
+    if not isinstance(v, SArr):
+        raise I.Unsupported("cannot identify the neighbour table (local 'channel_idx') in make_channel_index()")
+    return v
+
+
 # ----------------------------------------------------------------------------- bounded
 def native_gather(rng, n):
     bad = []
@@ -606,6 +765,8 @@ def b_native(B):
     rng = np.random.default_rng(B.seed)
     bad = native_gather(rng, 60 if B.tier == "quick" else 400)
     B.case("extract_wfs_array_random", not bad, detail=bad[:4])
+    r = replay_channel_index({}, "")
+    B.case("make_channel_index_lattices", not r["failed"], detail=r)
     bad = native_table(rng, 150 if B.tier == "quick" else 1500)
     B.case("make_wfs_table_generated", not bad, detail=bad[:4], inputs={"kind": "table"})
     runs = [(6100, 500, 1), (6100, 3000, 3), (6100, 6100, 1), (9000, 1000, 3)]
